@@ -3,7 +3,7 @@
 //     tree ::= ( (relpath kind content) .. )   relative to @BASE@; kind 0 file, 1 directory
 //     rootspelling: bytes with "@BASE@" replaced by the scratch directory; "@CWD@/x" = relative "x" with cwd = @BASE@
 //     path: the (server-decoded) path handed to the handler; "@BASE@" is replaced too
-//   obs ::= ( status contentLength contentRange body closed )
+//   obs ::= ( status contentLength contentRange body closed released )   released: the process holds as many descriptors after the request as before
 #include <QCoreApplication>
 #include <QDir>
 #include <QFile>
@@ -12,6 +12,8 @@
 #include <qhttpengine/filesystemhandler.h>
 #include <qhttpengine/socket.h>
 #include <unistd.h>
+#include <dirent.h>
+#include <sys/resource.h>
 #include "families.h"
 #include "simtcp.h"
 using namespace QHttpEngine;
@@ -30,6 +32,13 @@ static void buildTree(const QString &base, const Val &tree)
     }
 }
 
+static int fsOpenFds()
+{
+    int n = 0;
+    if (DIR *d = opendir("/proc/self/fd")) { while (readdir(d)) ++n; closedir(d); }
+    return n;
+}
+
 // one request through [handler]: ( status contentLength contentRange body closed )
 static Val oneRequest(FilesystemHandler &handler, const QString &base, QByteArray pathB, const Val &hdrs)
 {
@@ -37,6 +46,7 @@ static Val oneRequest(FilesystemHandler &handler, const QString &base, QByteArra
     QString path = QString::fromUtf8(pathB);
     QByteArray wire;
     bool closed = false;
+    int fds0 = fsOpenFds();
     {
         SimTcp *tcp = new SimTcp;
         tcp->onWrite = [&wire](const QByteArray &b) { wire += b; };
@@ -70,10 +80,10 @@ static Val oneRequest(FilesystemHandler &handler, const QString &base, QByteArra
     int before = body.size();
     body.replace(base.toUtf8(), "@BASE@");
     if (body.size() != before && cl == QByteArray::number(before)) cl = QByteArray::number(body.size());
-    return Val::List({Val::Int(status), Val::Bytes(cl), Val::Bytes(cr), Val::Bytes(body), Val::Bool(closed)});
+    return Val::List({Val::Int(status), Val::Bytes(cl), Val::Bytes(cr), Val::Bytes(body), Val::Bool(closed), Val::Bool(fsOpenFds() == fds0)});
 }
 
-// "fs": ( tree root path headers .. ) one request;  "fsm": ( tree root ((path headers)..) .. ) several requests through ONE handler
+// "fs": ( tree root path headers .. ) one request;  "fsm": ( tree root ((path headers [newroot])..) .. ) several requests through ONE handler, the root replaced on the way
 static Val runFs(const Val &c, bool multi)
 {
     QTemporaryDir tmp(QDir::tempPath() + "/hxfs-XXXXXX");
@@ -85,14 +95,34 @@ static Val runFs(const Val &c, bool multi)
     if (rootSpec.startsWith("@CWD@/")) { QDir::setCurrent(base); root = QString::fromUtf8(rootSpec.mid(6)); }
     else { rootSpec.replace("@BASE@", base.toUtf8()); root = QString::fromUtf8(rootSpec); }
     Val out;
+    static bool warm = false;
+    if (!warm) {      // the MIME database is loaded (and its cache file kept open) by the first file request of the process
+        warm = true;
+        FilesystemHandler h0(base);
+        QFile f(base + "/.hxwarm"); f.open(QIODevice::WriteOnly); f.write("w"); f.close();
+        oneRequest(h0, base, ".hxwarm", Val::List());
+        QFile::remove(base + "/.hxwarm");
+    }
+    // a long history runs with few spare descriptors: what is not released is soon missed
+    struct rlimit rl0; getrlimit(RLIMIT_NOFILE, &rl0);
+    bool tight = multi && c.at(2).size() > 50;
+    if (tight) { struct rlimit rl = rl0; rl.rlim_cur = rlim_t(fsOpenFds() + 40); setrlimit(RLIMIT_NOFILE, &rl); }
     {
         FilesystemHandler handler(root);
         if (!multi) out = oneRequest(handler, base, c.at(2).asBytes(), c.at(3));
         else {
             out = Val::List();
-            for (auto &rq : c.at(2).l) out.add(oneRequest(handler, base, rq.at(0).asBytes(), rq.at(1)));
+            for (auto &rq : c.at(2).l) {
+                if (rq.size() >= 3) {       // the document root is replaced before this request
+                    QByteArray spec = rq.at(2).asBytes();
+                    if (spec.startsWith("@CWD@/")) { QDir::setCurrent(base); handler.setDocumentRoot(QString::fromUtf8(spec.mid(6))); }
+                    else { spec.replace("@BASE@", base.toUtf8()); handler.setDocumentRoot(QString::fromUtf8(spec)); }
+                }
+                out.add(oneRequest(handler, base, rq.at(0).asBytes(), rq.at(1)));
+            }
         }
     }
+    if (tight) setrlimit(RLIMIT_NOFILE, &rl0);
     QDir::setCurrent(oldCwd);
     return out;
 }
